@@ -1593,7 +1593,9 @@ func (inv *Invoker) Acquire() {
 
 func (inv *Invoker) acquire(usePool bool) {
 	if !inv.isCompiled {
+		// the callee runs directly, also when there is no VM
 		inv.child = inv.vm
+		return
 	}
 	if inv.child != nil {
 		return
@@ -1621,7 +1623,7 @@ func (inv *Invoker) Invoke(args ...Object) (Object, error) {
 	if inv.child == nil {
 		inv.acquire(false)
 	}
-	if inv.child.Aborted() {
+	if inv.child != nil && inv.child.Aborted() {
 		return Undefined, ErrVMAborted
 	}
 	if inv.isCompiled {
